@@ -1291,6 +1291,95 @@ Lemma tree_mc_run :
      log := [Ev 0 1 [97; 49; 47; 107; 48] 1 (Some [47; 97; 49; 47; 107; 48]) (Some (0, 1)) true] |}.
 Proof. split; vm_compute; reflexivity. Qed.
 
+(* ---- non-vacuity for names with alternatives ---------------------------------
+   { {on,off}/ -> { x, y:i }, p{q,r}#2:i } with /off/y and /pr1, types "i" *)
+Definition tab_alt_sub : table :=
+  {| t_id := 1; t_dflt := false; t_ports := [([120], false); ([121; 58; 105], false)]; t_pos := []; t_assoc := [] |}.
+Definition tab_alt_root : table :=
+  {| t_id := 0; t_dflt := false;
+     t_ports := [([123; 111; 110; 44; 111; 102; 102; 125; 47], true);
+                 ([112; 123; 113; 44; 114; 125; 35; 50; 58; 105], false)];
+     t_pos := []; t_assoc := [] |}.
+Definition tree_alt : tree := Node tab_alt_root [Some (Node tab_alt_sub [None; None]); None].
+(* /off/y   /pr1 *)
+Definition msg_alt : str := [47; 111; 102; 102; 47; 121].
+Definition msg_alt2 : str := [47; 112; 114; 49].
+
+Lemma tree_alt_tree_ok : tree_ok tree_alt.
+Proof.
+  constructor.
+  - intros [|[|[|n]]] name sub E; cbn in E; inversion E; subst; cbn; split; intros H;
+      try discriminate; try reflexivity; try (eexists; reflexivity); try (destruct H; discriminate).
+  - left. vm_compute. reflexivity.
+  - intros [|[|[|n]]] s E; cbn in E; inversion E; subst. constructor.
+    + intros [|[|[|n]]] name sub E2; cbn in E2; inversion E2; subst; cbn; split; intros H;
+        try discriminate; try (destruct H; discriminate).
+    + left. vm_compute. reflexivity.
+    + intros [|[|[|n]]] s E2; cbn in E2; discriminate.
+Qed.
+
+Lemma tree_alt_ok : root_ok tree_alt msg_alt /\ root_ok tree_alt msg_alt2.
+Proof.
+  split; (split; [exact tree_alt_tree_ok | split; [repeat constructor; discriminate | repeat constructor; lia]]).
+Qed.
+
+Ltac prove_plain :=
+  repeat constructor; intros Hx; cbn in Hx; repeat (destruct Hx as [Hx|Hx]; [discriminate|]); exact Hx.
+
+Lemma tree_alt_names : names_ok tree_alt /\ addr_ok (strip msg_alt) /\ addr_ok (strip msg_alt2).
+Proof.
+  split; [|split; repeat constructor; discriminate].
+  constructor.
+  - intros [|[|[|n]]] name sub E; cbn in E; inversion E; subst; cbn [nth_error].
+    + exists {| segs := [Alt [[111; 110]; [111; 102; 102]]]; subtree := true; types := None |}.
+      split; [reflexivity|]. split; [unfold wf_pat; prove_wf|]. split; [prove_plain | reflexivity].
+    + exists {| segs := [Lit [112]; Alt [[113]; [114]]; Enum [50]]; subtree := false; types := Some [[105]] |}.
+      split; [reflexivity|]. split; [unfold wf_pat; prove_wf|]. split; [prove_plain | reflexivity].
+  - intros [|[|[|n]]] s E; cbn in E; inversion E; subst. constructor.
+    + intros [|[|[|n]]] name sub E2; cbn in E2; inversion E2; subst; cbn [nth_error].
+      * exists {| segs := [Lit [120]]; subtree := false; types := None |}.
+        split; [reflexivity|]. split; [unfold wf_pat; prove_wf|]. split; [repeat constructor | reflexivity].
+      * exists {| segs := [Lit [121]]; subtree := false; types := Some [[105]] |}.
+        split; [reflexivity|]. split; [unfold wf_pat; prove_wf|]. split; [repeat constructor | reflexivity].
+    + intros [|[|[|n]]] s E2; cbn in E2; discriminate.
+Qed.
+
+Lemma tree_alt_addressed :
+  addressed [0%nat; 1%nat] tree_alt (strip msg_alt) [105] /\
+  addressed [1%nat] tree_alt (strip msg_alt2) [105].
+Proof.
+  split.
+  - cbn [addressed]. exists [123; 111; 110; 44; 111; 102; 102; 125; 47], true, [121]. split.
+    + split; [reflexivity|]. split; [vm_compute; reflexivity|].
+      intros [|[|[|n]]] name sub Hn E pe'; cbn in E; inversion E; subst; try congruence.
+      vm_compute. discriminate.
+    + cbn. exists [121; 58; 105], false, []. split; [|reflexivity].
+      split; [reflexivity|]. split; [vm_compute; reflexivity|].
+      intros [|[|[|n]]] name sub Hn E pe'; cbn in E; inversion E; subst; try congruence.
+      vm_compute. discriminate.
+  - cbn [addressed]. exists [112; 123; 113; 44; 114; 125; 35; 50; 58; 105], false, []. split; [|reflexivity].
+    split; [reflexivity|]. split; [vm_compute; reflexivity|].
+    intros [|[|[|n]]] name sub Hn E pe'; cbn in E; inversion E; subst; try congruence.
+    vm_compute. discriminate.
+Qed.
+
+Lemma tree_alt_run :
+  dispatch tree_alt msg_alt [105] true 1 =
+  {| loc := Some [47]; matches := 1; obj := 1; dport := Some (1, 1);
+     log := [Ev 1 1 [121] 132 (Some [47; 111; 102; 102; 47; 121]) (Some (1, 1)) true;
+             Ev 0 0 [111; 102; 102; 47; 121] 1 (Some [47; 111; 102; 102; 47]) (Some (0, 0)) false] |} /\
+  dispatch tree_alt msg_alt [105] false 1 =
+  {| loc := None; matches := 0; obj := 1; dport := Some (1, 1);
+     log := [Ev 1 1 [121] 132 None (Some (1, 1)) true;
+             Ev 0 0 [111; 102; 102; 47; 121] 1 None (Some (0, 0)) false] |} /\
+  dispatch tree_alt msg_alt2 [105] true 1 =
+  {| loc := Some [47]; matches := 1; obj := 1; dport := Some (0, 1);
+     log := [Ev 0 1 [112; 114; 49] 1 (Some [47; 112; 114; 49]) (Some (0, 1)) true] |} /\
+  dispatch tree_alt msg_alt2 [105] false 1 =
+  {| loc := None; matches := 0; obj := 1; dport := Some (0, 1);
+     log := [Ev 0 1 [112; 114; 49] 1 None (Some (0, 1)) true] |}.
+Proof. repeat split; vm_compute; reflexivity. Qed.
+
 (* ---- the index an enumerated parent hands down ------------------------------ *)
 Lemma take_digits_app : forall x r, digits x -> starts_with_digit r = false -> take_digits (x ++ r) = x.
 Proof.
